@@ -956,6 +956,9 @@ func batchGuard(sn gocql.VerifEvSnap, b []evEvent) string {
 			continue
 		}
 		h := sn.RingByID[id]
+		if h == nil { // a stale by-address entry (excluded by C16_view_no_stale): the handler is run as it is
+			continue
+		}
 		_, _, ca := gocql.VerifHostAddrs(h)
 		k := ca.String()
 		if _, dup := seen[k]; dup { // two addressed hosts share a connect address, or two addresses lead to one host
